@@ -340,3 +340,101 @@ Example ex_history_codons :
           OpRender ex_ab ex_a1]) =
   [Some (Err (EMissing (s "b"))); Some (Ok (s "1 and 2") []); Some (Err (EMissing (s "b")))].
 Proof. vm_compute. reflexivity. Qed.
+
+(* ------------------------------------------------------------------ *)
+(* values of unusual types.  Priority.HIGH of class Priority(str, Enum): str() is "Priority.HIGH", the
+   character data "high" is what len() and json.dumps() see, repr() is a third text.  A str subclass whose
+   __str__ masks its payload (data "hunter2 {{p}}").  A falsy object that cannot be sized or serialised. *)
+Definition ex_high : value := VObj (s "Priority.HIGH") (s "<Priority.HIGH: 'high'>") (Some (s """high""")) true (Some 4).
+Definition ex_low_item : item := IOpaque (s "Priority.LOW") (s "<Priority.LOW: 'low'>") (s """low""").
+Definition ex_secret : value := VObj (s "<redacted>") (s "'hunter2 {{p}}'") (Some (s """hunter2 {{p}}""")) true (Some 13).
+Definition ex_note : value := VObj (s "see {{p}}") (s "Note('see {{p}}')") None false None.
+Definition ex_objs : ctx :=
+  [(s "p", ex_high); (s "pw", ex_secret); (s "note", ex_note);
+   (s "ps", VList [ex_low_item; IOpaque (s "Priority.HIGH") (s "<Priority.HIGH: 'high'>") (s """high""")]);
+   (s "rows", VTuple [IDictO [(s "who", s "Priority.LOW")] (s "{'who': <Priority.LOW: 'low'>}")
+                             (s "{'who': <Priority.LOW: 'low'>}") (s "{""who"": ""low""}")])].
+Definition ex_obj_tpl : template :=
+  [NLeaf (LVar (s "p")); NLeaf (LText (s "|")); NLeaf (LOpt (s "p")); NLeaf (LText (s "|"));
+   NLeaf (LPipe (s "p") (s "none given")); NLeaf (LText (s "|")); NLeaf (LPipe (s "p") (s "upper")); NLeaf (LText (s "|"));
+   NLeaf (LPipe (s "p") (s "length")); NLeaf (LPipe (s "p") (s "json")); NLeaf (LPipe (s "p") (s "repr")); NLeaf (LText (s "|"));
+   NLeaf (LVar (s "pw")); NLeaf (LText (s "|")); NLeaf (LVar (s "note")); NLeaf (LPipe (s "note") (s "repr"));
+   NIf (s " ") (s "note") [LText (s "T")] (Some [LText (s "F")]);
+   NEach (s " ") (s "ps") [LVar (s "index"); LText (s "="); LVar (s "item"); LText (s ";")];
+   NEach (s " ") (s "rows") [LVar (s "who"); LText (s "/"); LDot];
+   NEach (s " ") (s "p") [LText (s "never")]].
+Example ex_object_values :
+  ctx_ok ex_objs = true /\ well_formed ex_obj_tpl = true /\
+  render_impl false [] ex_objs (print ex_obj_tpl) =
+    Ok (s "Priority.HIGH|Priority.HIGH|Priority.HIGH|PRIORITY.HIGH|4""high""<Priority.HIGH: 'high'>|<redacted>|see {{p}}Note('see {{p}}')F0=Priority.LOW;1=Priority.HIGH;Priority.LOW/{'who': <Priority.LOW: 'low'>}") [] /\
+  render_spec false [] ex_objs ex_obj_tpl =
+    SOk (s "Priority.HIGH|Priority.HIGH|Priority.HIGH|PRIORITY.HIGH|4""high""<Priority.HIGH: 'high'>|<redacted>|see {{p}}Note('see {{p}}')F0=Priority.LOW;1=Priority.HIGH;Priority.LOW/{'who': <Priority.LOW: 'low'>}") [] /\
+  snd (render_taint false [] ex_objs (print ex_obj_tpl)) = [] /\
+  (* what cannot be sized / serialised is TypeError *)
+  render_impl false [] ex_objs (print [NLeaf (LPipe (s "note") (s "json"))]) = Err EType /\
+  render_impl false [] ex_objs (print [NLeaf (LPipe (s "note") (s "length"))]) = Err EType /\
+  (* a custom filter whose RESULT is an instance of a str subclass: str() of the result is rendered *)
+  @render_impl [(s "tag", CTag)] false [] ex_objs (print [NLeaf (LPipe (s "pw") (s "tag"))]) = Ok (s "<<>detcader<>>") [].
+Proof. vm_compute. repeat split; auto. Qed.
+
+(* c12_bound_value_rendered_as_its_str / c12_loop_item_rendered_as_its_str are not vacuous *)
+Example ex_value_text_hyps :
+  ctx_ok ex_objs = true /\ word (s "pw") = true /\ nonempty (s "none given") = true /\ clean (s "none given") = true /\
+  is_filter (s "none given") = false /\ lookup ex_objs (s "pw") = Some ex_secret /\ str_value ex_secret = s "<redacted>" /\
+  spaces (s " ") = true /\ lookup_seq ex_objs (s "ps") <> None /\
+  forallb (fun it => negb (is_dict it)) [ex_low_item] = true.
+Proof. vm_compute. repeat split; auto. discriminate. Qed.
+
+(* ------------------------------------------------------------------ *)
+(* bindings called like the parameters of the API.  Every one of them is rendered, on every entry point, also
+   through two levels of includes, in an if-condition, a loop body and in strict mode. *)
+Definition ex_api_ctx : ctx :=
+  [(s "strict", VStr (s "always")); (s "template", VInt 0); (s "sequence", VStr (s "S")); (s "self", VStr (s "me"));
+   (s "context", VStr (s "C")); (s "name", VStr (s "N")); (s "rules", VList [IStr (s "a"); IStr (s "b")])].
+Definition ex_policy : template :=
+  [NLeaf (LText (s "policy=")); NLeaf (LVar (s "strict")); NLeaf (LText (s "/")); NLeaf (LVar (s "template")); NLeaf (LVar (s "self"))].
+Definition ex_api_T : list (str * template) :=
+  [(s "policy", ex_policy); (s "section", [NLeaf (LText (s "[")); NLeaf (LInc (s "policy")); NLeaf (LText (s "]"))])].
+Definition ex_api_main : template :=
+  [NLeaf (LInc (s "section")); NLeaf (LVar (s "sequence")); NLeaf (LOpt (s "context")); NLeaf (LPipe (s "name") (s "lower"));
+   NIf (s " ") (s "strict") [LText (s " no exceptions")] (Some [LText (s " best effort")]);
+   NIf (s " ") (s "template") [LText (s " T")] (Some [LText (s " F")]);
+   NEach (s " ") (s "rules") [LText (s " "); LVar (s "item"); LText (s ":"); LVar (s "strict")]].
+Example ex_api_names :
+  ctx_ok ex_api_ctx = true /\
+  map (fun o => result_text (result_on true ex_api_T o))
+      [OpSynth ex_api_main ex_api_ctx; OpRender ex_api_main ex_api_ctx; OpTranslate (s "policy") ex_api_ctx;
+       OpRenderDecl ex_api_main [(CtVariable, s "strict", true)] ex_api_ctx] =
+  [Some (s "[policy=always/0me]SCn no exceptions F a:always b:always");
+   Some (s "[policy=always/0me]SCn no exceptions F a:always b:always");
+   Some (s "policy=always/0me");
+   Some (s "[policy=always/0me]SCn no exceptions F a:always b:always")] /\
+  render_spec true ex_api_T ex_api_ctx ex_api_main = SOk (s "[policy=always/0me]SCn no exceptions F a:always b:always") [] /\
+  (* c12_every_identifier_binds is not vacuous *)
+  word (s "strict") = true /\ word (s "template") = true /\ word (s "self") = true /\ word (s "policy") = true /\
+  lookup [(s "t", [NLeaf (LVar (s "template"))])] (s "t") = Some [NLeaf (LVar (s "template"))].
+Proof. vm_compute. repeat split; auto. Qed.
+
+(* THE API BEFORE e868ad8 REFUSED THREE NAMES.  def translate(self, template, **context) and
+   def synthesize(self, sequence, **context): a binding called template, sequence or self met a parameter that
+   was already filled positionally - TypeError before anything was rendered - on every entry point; the present
+   code renders the binding.  Every other name was bound then as now. *)
+Lemma c12_binding_refused_legacy_refuted :
+  exists (o : op) (x : str),
+    result_on_legacy false [] o = RBindRefused x /\
+    result_text (result_on false [] o) = Some (s "x=V").
+Proof.
+  exists (OpSynth [NLeaf (LText (s "x=")); NLeaf (LVar (s "template"))] [(s "template", VStr (s "V"))]), (s "template").
+  vm_compute. split; reflexivity.
+Qed.
+Example ex_legacy_api :
+  map (fun o => result_on_legacy true ex_api_T o)
+      [OpSynth ex_policy [(s "strict", VStr (s "x")); (s "template", VInt 0); (s "sequence", VInt 1)];
+       OpSynth ex_policy [(s "template", VInt 0)];
+       OpTranslate (s "policy") [(s "sequence", VInt 1); (s "self", VInt 2); (s "template", VInt 0)];
+       OpRender ex_policy [(s "a", VInt 1); (s "template", VInt 0)]] =
+  [RBindRefused (s "sequence"); RBindRefused (s "template"); RBindRefused (s "self"); RBindRefused (s "template")] /\
+  (* ... and nothing else *)
+  (forall o, first_clash (legacy_defs o) [(s "strict", VInt 1); (s "context", VInt 1); (s "name", VInt 1);
+                                          (s "silent", VInt 1); (s "filters", VInt 1); (s "templates", VInt 1)] = None).
+Proof. split; [vm_compute; reflexivity|]. intros o. destruct o; reflexivity. Qed.
